@@ -872,6 +872,8 @@ impl<'a> Gen<'a> {
             files: p.files,
             order: (0..n).collect(),
             via_hashmap: false,
+            dups: Vec::new(),
+            via_insert: false,
             main_path: p.main_path,
             opts,
         }
@@ -896,11 +898,22 @@ impl<'a> Gen<'a> {
         for _ in 0..k {
             let mut o = op.clone();
             if let Op::Project {
-                order, via_hashmap, ..
+                order,
+                via_hashmap,
+                dups,
+                via_insert,
+                ..
             } = &mut o
             {
                 r.shuffle(order);
                 *via_hashmap = r.below(3) == 0;
+                if r.below(4) == 0 {
+                    // a file handed over twice / the tree built by insertion
+                    let n = order.len();
+                    *dups = (0..r.range(1, 2)).map(|_| r.below(n)).collect();
+                    *via_hashmap = false;
+                }
+                *via_insert = !*via_hashmap && r.below(4) == 0;
             }
             calls.push(Call {
                 op: o,
